@@ -312,6 +312,9 @@ func runHistory(c *Ctx, caseIdx int, rng *rand.Rand, o *HistOpts) *HistRun {
 			if !t.Intend {
 				c.SetAdd("invalid-variants", strings.SplitN(t.Label, "(", 2)[0])
 			}
+			if strings.HasPrefix(t.Label, "scenario:") {
+				c.SetAdd("scenario-outcomes", fmt.Sprintf("%s=code%d", t.Label, res.Txs[i].Code))
+			}
 		}
 		var addrs [][]byte
 		if m.Ref != nil {
